@@ -266,6 +266,6 @@ def strat(draw, tier):
 
 
 PARTS = [
-    Part("samplers", exec_case, strategy=strat, examples={"quick": 4000, "thorough": 400000}, shards={"quick": 16, "thorough": 16},
+    Part("samplers", exec_case, strategy=strat, examples={"quick": 8000, "thorough": 400000}, shards={"quick": 16, "thorough": 16},
          budget_s={"quick": 60, "thorough": 1200}, describe="six plate-carree sampler variants x map shapes x generated request arrays"),
 ]
